@@ -426,9 +426,11 @@ def new_ltf_plan(**args):
                 stage2 = True # Transition to stage 2 on the NEXT iteration
                 # Calculate alpha for the upcoming stage 2
                 pts_left = Jdes - j
+                dftlen = int(np.round(fs / fres_ideal)) # Use the ideal fres for this step
+                if dftlen_crossover == 0:
+                    dftlen_crossover = dftlen # Stage 2 starts on the very first bin
                 if pts_left > 1:
                     alpha = np.log(Lmin / dftlen_crossover) / (pts_left - 1)
-                dftlen = int(np.round(fs / fres_ideal)) # Use the ideal fres for this step
             elif (freslim * fres_ideal)**0.5 > fresmin:
                 fres = (freslim * fres_ideal)**0.5
                 dftlen = int(np.round(fs / fres))
@@ -458,9 +460,14 @@ def new_ltf_plan(**args):
         # The bmin constraint must always be respected
         if fbin < bmin:
             fres = fi / bmin
-            dftlen = int(fs/fres) # Recalculate L if bmin was enforced
-            fbin = bmin
+            dftlen = int(np.round(fs/fres)) # Recalculate L if bmin was enforced
+            if dftlen > N: dftlen = N
             nseg = int(np.round((N - dftlen) / (xov * dftlen) + 1))
+            if nseg == 1:
+                dftlen = N
+            # Keep the DFT constraint r*L = fs for the integer segment length
+            fres = fs / dftlen
+            fbin = fi / fres
 
 
         # --- C. Store results and update state for the next iteration ---
